@@ -93,6 +93,9 @@ class TimeKeeper:
         logger.info("  Model stop time: %s", self.stop_time)
 
         self.dt = normalize_period(dt)  # np.timedelta64(-,"s")
+        if self.dt <= np.timedelta64(0, "s"):
+            logger.critical("The time step must be positive, dt = %s", self.dt)
+            raise SystemExit(3)
         self.time_reversal = time_reversal
         # self.time = self.start_time  # Running clock
         self.step = -1  # step before start
